@@ -127,6 +127,8 @@ def gen(rng, focus, k=None, maxops=40):
             if name is None:
                 continue
             nparts = rng.choice([0, 1, 1, 2, 3])
+            if focus == "C08":
+                nparts = rng.choice([1, 2, 3, 4, 5, 6, 7])     # shares of two and more per member, in every slot
             exp = rng.choice(["never", "never", "default", "5000000"])
             mx = rng.choice(["unlimited", "unlimited", "default", str(cfg["seg"]), str(cfg["seg"] * 3)])
             repl = rng.choice(["-", "-", "1", "3"])
@@ -308,6 +310,8 @@ def gen(rng, focus, k=None, maxops=40):
         cascade(g, rng)
     if k is not None and k % 4 == 3:
         offsets_cascade(g, rng)
+    if k is not None and k % 4 == 2 and focus == "C08":
+        rotation(g, rng)
     g.observe(full=True)
     return cfg, g.ops
 
@@ -417,3 +421,36 @@ def offsets_cascade(g, rng):
         g.emit("restart")
         observe()
     g.streams[s] = {"name": f"o{s}", "topics": {}, "tguess": 1}
+
+
+def rotation(g, rng):
+    """Several members, shares of two and more: each member polls without a partition id again and again; its
+    polls must visit every partition of its share in turn and the group must receive every message once."""
+    s = 40 + rng.randint(0, 5)
+    nparts = rng.randint(3, 8)
+    g.emit(f"create-stream 0 {s} r{s}")
+    g.emit(f"create-topic 0 #{s} 1 rt {nparts} never unlimited -")
+    g.emit(f"create-group 0 #{s} #1 1 rg")
+    g.clock += 10
+    g.emit(f"clock {g.clock}")
+    per = rng.randint(1, 3)
+    for p in range(1, nparts + 1):
+        ms = ",".join(f"{60000 + 100 * p + i}:20:{700 + i}:0" for i in range(per))
+        g.emit(f"send 0 #{s} #1 pid:{p} {ms}")
+    members = []
+    for _ in range(rng.randint(1, 3)):
+        c = max(g.conns + members) + 1
+        members.append(c)
+        g.emit(f"conn {c} tcp")
+        g.emit(f"login {c} iggy iggy")
+        g.emit(f"me {c}")
+        g.emit(f"join {c} #{s} #1 #1")
+        g.emit(f"group 0 #{s} #1 #1")
+    for _ in range(per + 1):
+        for c in members:
+            for _ in range(nparts):
+                g.emit(f"poll {c} #{s} #1 - g:#1 next 1 1")
+    for p in range(1, nparts + 1):
+        g.emit(f"get-offset 0 #{s} #1 {p} g:#1")
+    g.conns.extend(members)
+    g.streams[s] = {"name": f"r{s}", "topics": {}, "tguess": 1}
